@@ -33,6 +33,7 @@ def check(repo: Repo, rep, tier):
     no_nondet(repo, rep)
     set_order(repo, rep)
     set_iter(repo, rep)
+    hasrepr_eq(repo, rep)
     fmt_optional(repo, rep)
     fmt_taint_fragment(repo, rep)
     repr_through_mock(repo, rep)
@@ -446,8 +447,39 @@ def fmt_shell(repo: Repo, rep):
         sh = [k for k in c.keywords if k.arg == "shell"]
         if sh and isinstance(sh[0].value, ast.Constant) and sh[0].value.value is True:
             rep.ok("R-FMT-SHELL", f, c, "format-command runs through the shell")
+        extra = [k.arg for k in c.keywords if k.arg in ("cwd", "env", "executable")]
+        if extra:
+            rep.violation("R-FMT-SHELL", f, c, f"the format-command runs with `{extra[0]}=...`: the documented commands are relative to the directory pytest runs in (`python scripts/fmt.py {{filename}}`, a config file given by a relative path) - started elsewhere they fail for every test file outside that directory, the file is written unformatted", construct=f"subprocess-{extra[0]}")
+        if sh and isinstance(sh[0].value, ast.Constant) and sh[0].value.value is True:
+            pass
         else:
             rep.violation("R-FMT-SHELL", f, c, f"`{short(c, 60)}` does not run the format-command through the shell: documented pipelines (`ruff check --fix-only ... | ruff format ...`) are truncated to their first stage without any error", construct="no-shell")
+
+
+def hasrepr_eq(repo: Repo, rep):
+    rep.rule(
+        "R-HASREPR-EQ",
+        "reader / writer agreement for values without a code representation: the text stored in `HasRepr(type, \"<repr>\")` is produced by code_repr() "
+        "(repr with builtins.repr re-bound, so nested enums / classes / dataclasses appear in their code form), therefore HasRepr.__eq__ compares the "
+        "stored text with code_repr(other), not with the builtin repr(other) - otherwise the generated snapshot is not equal to the value on the next run",
+    )
+    c = None
+    for k in repo.all_classes():
+        if k.name == "HasRepr" and k.module.rel == "_code_repr.py":
+            c = k
+    eq = c.methods.get("__eq__") if c is not None else None
+    if eq is None:
+        rep.undecided("R-HASREPR-EQ", "HasRepr.__eq__ not found")
+        return
+    calls = [x for x in body_nodes(eq.node) if isinstance(x, ast.Call) and isinstance(x.func, ast.Name) and x.func.id in ("repr", "real_repr", "code_repr", "str", "format")]
+    bad = [x for x in calls if x.func.id != "code_repr" and x.args and any(isinstance(y, ast.Name) and y.id in eq.params[1:] for y in ast.walk(x.args[0]))]
+    good = [x for x in calls if x.func.id == "code_repr"]
+    if bad:
+        rep.violation("R-HASREPR-EQ", eq, bad[0], f"HasRepr.__eq__ renders the compared object with `{norm(bad[0])}`: the stored text was written by code_repr(), the two differ as soon as the object's __repr__ embeds repr() of an Enum, a class or a dataclass - the created snapshot fails on the next run", construct="eq-builtin-repr")
+    elif good:
+        rep.ok("R-HASREPR-EQ", eq, good[0], "HasRepr.__eq__ compares with code_repr(other)")
+    else:
+        rep.undecided("R-HASREPR-EQ", "HasRepr.__eq__ renders the other object in a way this rule does not know")
 
 
 def codegen_pure(repo: Repo, rep):
